@@ -53,6 +53,15 @@ def init():
         return r
     Optimizer.optimize_to_humans, Optimizer.optimize_feed_to_animals = w_h, w_a
 
+    o_init = Optimizer.__init__
+
+    def w_init(self, c, t):
+        if _P["cap"] is not None and _P["cap"].get("want_inputs"):
+            _P["cap"].setdefault("inputs", []).append((copy.deepcopy(c), copy.deepcopy(t)))
+        o_init(self, c, t)
+    Optimizer.__init__ = w_init
+    _P["Optimizer_init"] = o_init
+
     ro = rs.ScenarioRunner.run_optimizer
 
     def w_ro(self, *a, **k):
@@ -89,10 +98,10 @@ def init():
 # ------------------------------------------------------------------ one execution
 
 
-def execute(iso, opts, title):
+def execute(iso, opts, title, want_inputs=False):
     """runs the real model; returns capture dict (with 'error' on failure)"""
     init()
-    cap = {"lp": [], "interp": [], "herd": [], "stdout": "", "error": None, "result": None}
+    cap = {"lp": [], "interp": [], "herd": [], "stdout": "", "error": None, "result": None, "want_inputs": want_inputs}
     _P["cap"] = cap
     o = copy.deepcopy(options.clean(opts))
     try:
